@@ -579,10 +579,21 @@ def primitive_case(draw):
     return {"prim": spec, "matrix": mat}
 
 
+def _no_tiny_translation(m):
+    """SceneGraph treats matrices within 1e-8 of another (or of identity) as unchanged: translations are either exactly
+    zero or well above that window (the window itself is probed by the near_identity class with its own allowance)"""
+    if m["cls"] == "near_identity":
+        return m
+    M = np.array(m["M"], dtype=np.float64)
+    t = M[:3, 3]
+    t[np.abs(t) < 1e-6] = 0.0
+    return dict(m, M=M.tolist())
+
+
 @st.composite
 def scene_case(draw):
-    edges = [draw(gm.matrix(classes=["rigid", "similarity", "translation", "rotation"], tscale=5.0)) for _ in range(4)]
-    return {"seed": 0, "edges": edges, "matrix": draw(gm.matrix()), "warm": draw(st.booleans())}
+    edges = [_no_tiny_translation(draw(gm.matrix(classes=["rigid", "similarity", "translation", "rotation"], tscale=5.0))) for _ in range(4)]
+    return {"seed": 0, "edges": edges, "matrix": _no_tiny_translation(draw(gm.matrix())), "warm": draw(st.booleans())}
 
 
 @st.composite
